@@ -464,6 +464,19 @@ def run_varray(item, t):
             w = want([base[i] for i in sel])
             if exc or len(r) != len(sel) or read(r) != w: t.fail("nd.FixedVArray.mask.getitem", ctx + "v[mask %s]" % ms, w, exc or read(r))
             else:
+                # every forward slice OF THE MASKED REFERENCE selects the rows the same slice selects on the list of
+                # masked rows (a mask with non-adjacent rows makes a fixed-pitch shortcut visible)
+                rows_m = [base[i] for i in sel]
+                for st in [None] + list(range(-len(sel) - 1, len(sel) + 2)):
+                    for sp in [None] + list(range(-len(sel) - 1, len(sel) + 2)):
+                        for step in (None, 1, 2):
+                            sl = slice(st, sp, step)
+                            t.add("transitions")
+                            rs, exc2 = attempt(t, "nd.FixedVArray.mask", lambda: r[sl])
+                            ws = want(rows_m[sl])
+                            if len(rows_m[sl]) >= 2 and any(b - a != 1 for a, b in zip(sel[sl], sel[sl][1:])): t.cls("nd.varray.mask.slice-of-non-adjacent-rows")
+                            if exc2 or read(rs) != ws:
+                                t.fail("nd.FixedVArray.mask.slice-of-masked-reference", ctx + "v[mask %s][%s:%s:%s]" % (ms, st, sp, step), ws, exc2 or read(rs))
                 for p, i in enumerate(sel):
                     if sizes[i]:
                         t.add("transitions")
@@ -588,7 +601,7 @@ def run(R, thorough):
     items += [("var", c, sz) for c in cv for n in range(4) for sz in itertools.product((0, 1, 2), repeat=n)]
     for d in ("2d", "matrix", "varray"):
         R.declare("nd.%s.int.in-range" % d, "nd.%s.int.out-of-range" % d, "nd.%s.slice.empty" % d, "nd.%s.slice.forward" % d, "nd.%s.slice.zero-step" % d)
-    R.declare("nd.2d.mask", "nd.2d.mask-wrong-shape", "nd.varray.mask", "nd.varray.mask-wrong-length", "nd.2d.malformed-index")
+    R.declare("nd.2d.mask", "nd.2d.mask-wrong-shape", "nd.varray.mask", "nd.varray.mask-wrong-length", "nd.2d.malformed-index", "nd.varray.mask.slice-of-non-adjacent-rows")
     ok = fork_map(run_any, items, R, "nd.worker.fatal", describe=repr)
     malformed_2d(R)
     msg = ("FixedArray2D %s sizes 0..3x0..3 (one dimension exhaustive: ints -4..4, every forward slice start,stop in {None,-4..4} step in {None,1,2,3}, zero step; other dimension 5 representatives; all masks); "
